@@ -10,11 +10,13 @@ package dnsforward
 
 import (
 	"context"
+	"crypto/tls"
 	"fmt"
 	"io"
 	"net"
 	"net/http"
 	"net/netip"
+	"net/url"
 	"os"
 	"path/filepath"
 	"strings"
@@ -36,6 +38,7 @@ import (
 	"github.com/AdguardTeam/golibs/netutil"
 	"github.com/AdguardTeam/golibs/timeutil"
 	"github.com/miekg/dns"
+	"github.com/quic-go/quic-go"
 )
 
 func init() {
@@ -507,13 +510,53 @@ func (w *vfWorld) close() {
 	_ = os.RemoveAll(w.dir)
 }
 
+// vfTLSConn is a double of *tls.Conn carrying a server name.
+type vfTLSConn struct {
+	net.Conn
+	serverName string
+}
+
+// ConnectionState implements the tlsConn interface for vfTLSConn.
+func (c vfTLSConn) ConnectionState() (cs tls.ConnectionState) {
+	cs.ServerName = c.serverName
+
+	return cs
+}
+
+// vfQUICConn is a double of quic.Connection carrying a server name.
+type vfQUICConn struct {
+	quic.Connection
+	serverName string
+}
+
+// ConnectionState implements the quicConnection interface for vfQUICConn.
+func (c vfQUICConn) ConnectionState() (cs quic.ConnectionState) {
+	cs.TLS.ServerName = c.serverName
+
+	return cs
+}
+
 // vfQuery is one DNS request to run through the server.
 type vfQuery struct {
-	Name     string // FQDN as on the wire (case preserved)
-	Qtype    uint16
-	Addr     netip.AddrPort
-	Proto    proxy.Proto
+	Name  string // FQDN as on the wire (case preserved)
+	Qtype uint16
+	Addr  netip.AddrPort
+	Proto proxy.Proto
+
+	// ClientID, if not empty, is carried the way the protocol carries it: as
+	// the left-most label of the server name (DoT, DoQ) or as the path segment
+	// (DoH).  For protocols that cannot carry one it is ignored.
 	ClientID string
+
+	// SNI overrides the server name presented by the client (DoT/DoQ, and the
+	// TLS state of DoH when HTTPTLS is set).
+	SNI string
+
+	// HTTPPath and HTTPHost override the DoH request path and Host header.
+	HTTPPath string
+	HTTPHost string
+	// HTTPTLS makes the DoH request carry a TLS state with SNI.
+	HTTPTLS bool
 }
 
 // vfOutcome is what a query produced.
@@ -524,14 +567,12 @@ type vfOutcome struct {
 	BeforeErr error
 	Asked     []vfAsked
 	// Upstream is the response the upstream double gave, if it was asked.
-	Upstream  *dns.Msg
-	PCtx      *proxy.DNSContext
+	Upstream *dns.Msg
+	PCtx     *proxy.DNSContext
 }
 
-// run sends q through the production pre-request hook and request handler the
-// way dnsproxy does (HandleBefore first; if it fails the request handler is not
-// called), recording what the upstream double was asked.
-func (w *vfWorld) run(q vfQuery) (o *vfOutcome) {
+// newPCtx builds the proxy context dnsproxy would hand to the hooks.
+func (w *vfWorld) newPCtx(q vfQuery) (pctx *proxy.DNSContext) {
 	req := &dns.Msg{}
 	req.Id = dns.Id()
 	req.RecursionDesired = true
@@ -542,7 +583,7 @@ func (w *vfWorld) run(q vfQuery) (o *vfOutcome) {
 	if proto == "" {
 		proto = proxy.ProtoUDP
 	}
-	pctx := &proxy.DNSContext{
+	pctx = &proxy.DNSContext{
 		Proto:     proto,
 		Req:       req,
 		Addr:      q.Addr,
@@ -552,23 +593,57 @@ func (w *vfWorld) run(q vfQuery) (o *vfOutcome) {
 		pctx.IsPrivateClient = netutil.IsLocallyServed(q.Addr.Addr())
 	}
 
-	o = &vfOutcome{Req: req.Copy(), PCtx: pctx}
+	sni := q.SNI
+	if sni == "" {
+		sni = w.conf.ServerName
+		if q.ClientID != "" && sni != "" {
+			sni = q.ClientID + "." + sni
+		}
+	}
+	switch proto {
+	case proxy.ProtoTLS:
+		pctx.Conn = vfTLSConn{serverName: sni}
+	case proxy.ProtoQUIC:
+		pctx.QUICConnection = vfQUICConn{serverName: sni}
+	case proxy.ProtoHTTPS:
+		p := q.HTTPPath
+		if p == "" {
+			p = "/dns-query"
+			if q.ClientID != "" {
+				p += "/" + q.ClientID
+			}
+		}
+		host := q.HTTPHost
+		if host == "" {
+			host = w.conf.ServerName
+		}
+		r := &http.Request{Method: http.MethodPost, URL: &url.URL{Path: p}, Host: host, Header: http.Header{}}
+		if q.HTTPTLS {
+			hs := q.SNI
+			if hs == "" {
+				hs = w.conf.ServerName
+			}
+			r.TLS = &tls.ConnectionState{ServerName: hs}
+		}
+		pctx.HTTPRequest = r
+	}
+
+	return pctx
+}
+
+// run sends q through the production pre-request hook and request handler the
+// way dnsproxy does (HandleBefore first; if it fails the request handler is not
+// called), recording what the upstream double was asked.
+func (w *vfWorld) run(q vfQuery) (o *vfOutcome) {
+	pctx := w.newPCtx(q)
+	o = &vfOutcome{Req: pctx.Req.Copy(), PCtx: pctx}
 	w.ups.take()
 
-	if q.ClientID != "" {
-		// as HandleBefore would have stored it
-		key := [8]byte{}
-		for i := 0; i < 8; i++ {
-			key[7-i] = byte(pctx.RequestID >> (8 * i))
-		}
-		w.srv.clientIDCache.Set(key[:], []byte(q.ClientID))
-	} else {
-		o.BeforeErr = w.srv.HandleBefore(w.srv.dnsProxy, pctx)
-		if o.BeforeErr != nil {
-			o.Asked = w.ups.take()
+	o.BeforeErr = w.srv.HandleBefore(w.srv.dnsProxy, pctx)
+	if o.BeforeErr != nil {
+		o.Asked = w.ups.take()
 
-			return o
-		}
+		return o
 	}
 
 	o.Err = w.srv.handleDNSRequest(w.srv.dnsProxy, pctx)
